@@ -136,6 +136,47 @@ func c13Pass(r *core.Rand, jitter bool) []c13Stmt {
 	return out
 }
 
+// c13LongPass: ONE store that stays open for well over 30 seconds (no USE of
+// another database in between):
+// whatever the flusher does differently on its n-th tick, or after so many
+// seconds, meets an open statement.
+func c13LongPass(r *core.Rand) []c13Stmt {
+	var out []c13Stmt
+	add := func(kind, sql, park string, parkMs, gapMs int) {
+		out = append(out, c13Stmt{sql: sql, kind: kind, park: park, parkMs: parkMs, gapMs: gapMs})
+	}
+	add("other", "CREATE DATABASE d1", "", 0, 0)
+	add("other", "USE d1", "", 0, 0)
+	add("create", "CREATE TABLE a (k INT, g INT, s VARCHAR(40))", "", 0, 0)
+	// the store idles for 27 seconds (the flusher handles every tick, about
+	// 270 of them), then statements follow one another closely, each held
+	// open inside its log append for a little less than a timer period: nearly
+	// every further tick - the 300th among them - arrives while a statement
+	// is open
+	next := 0
+	for i := 0; i < 70; i++ {
+		gap := 8
+		if i == 0 {
+			gap = 27000
+		}
+		switch i % 3 {
+		case 0:
+			add("insert", fmt.Sprintf("INSERT INTO a VALUES (%d, %d, 'row')", next, next%5), "wal", 90, gap)
+			next++
+		case 1:
+			add("update", fmt.Sprintf("UPDATE a SET s = 'u%d' WHERE k = %d", i, next-1), "wal", 90, gap)
+		default:
+			var p []string
+			for k := 0; k < 3; k++ {
+				p = append(p, fmt.Sprintf("(%d, %d, 'row')", next, next%5))
+				next++
+			}
+			add("insert_multi", "INSERT INTO a VALUES "+strings.Join(p, ", "), "wal", 90, gap)
+		}
+	}
+	return out
+}
+
 func c13Script(mode string, pass []c13Stmt) script {
 	var s script
 	s.cfg(false, 0)
@@ -248,7 +289,7 @@ func parseRaceLogs(dir string) []raceReport {
 }
 
 func checkC13(c *core.Ctx) []core.Floor {
-	c.Rule = "one session goroutine against the REAL 100 ms flush goroutine. Each pass executes every statement kind {CREATE TABLE, INSERT single, INSERT multi-row (splitting; also 300 rows; a table grown to 1250 rows in five statements, through the split of its internal root), UPDATE and DELETE (also over 300 rows), SELECT scan, SELECT join, SELECT without FROM (in front of changing statements), SELECTs of the catalog tables sys_pages / sys_schema straight after a changing statement} with placements {idle gap > 1 tick before and after, park of > 2 ticks at the statement's 2nd page change, park of > 2 ticks inside the log append, SELECT: park at a cache miss}, on fresh pages and after a reload (cold cache); the database in use is created again and a missing one selected (both refused) before the first table; eight tables are created in one database, each CREATE held open, so that the CREATE whose catalog row splits the catalog root is among them. (a) -race build: handlers only sleep on the session goroutine and add no synchronisation; every data-race report with mkdb frames is a violation (happens-before reasoning, independent of the observed timing). (b) plain build (once as is, once with every page write of a flush slowed down to 15 ms by a sleep in the write hook, once with the database opened without fsync of the log, as csvimport -disable-wal-fsync does): every hook event is logged with its goroutine id; offline checker: no page or header write by ANY goroutine between a statement's first page change and the completion of its log append (CREATE TABLE: its last page change; an accepted INSERT / UPDATE / DELETE that returns without a completed log append keeps its window open until one completes); the same checker - and the race build - runs over passes with a page cache of 10-24 pages and statements that dirty hundreds of pages (the statement may be refused with 'cache is full', but must not push its own half-done pages to the data file). Distinct = (pass, statement, placement); non-trivial = the statement was actually held open (parked) across more than two timer periods."
+	c.Rule = "one session goroutine against the REAL 100 ms flush goroutine. Each pass executes every statement kind {CREATE TABLE, INSERT single, INSERT multi-row (splitting; also 300 rows; a table grown to 1250 rows in five statements, through the split of its internal root), UPDATE and DELETE (also over 300 rows), SELECT scan, SELECT join, SELECT without FROM (in front of changing statements), SELECTs of the catalog tables sys_pages / sys_schema straight after a changing statement} with placements {idle gap > 1 tick before and after, park of > 2 ticks at the statement's 2nd page change, park of > 2 ticks inside the log append, SELECT: park at a cache miss}, on fresh pages and after a reload (cold cache); the database in use is created again and a missing one selected (both refused) before the first table; eight tables are created in one database, each CREATE held open, so that the CREATE whose catalog row splits the catalog root is among them. One more pass per build keeps ONE store open for over 35 seconds (no USE in between): 27 s idle, then 70 statements in close succession, each held open inside its log append for 90 ms, so that nearly every tick from about the 270th to the 340th arrives while a statement is open. (a) -race build: handlers only sleep on the session goroutine and add no synchronisation; every data-race report with mkdb frames is a violation (happens-before reasoning, independent of the observed timing). (b) plain build (once as is, once with every page write of a flush slowed down to 15 ms by a sleep in the write hook, once with the database opened without fsync of the log, as csvimport -disable-wal-fsync does): every hook event is logged with its goroutine id; offline checker: no page or header write by ANY goroutine between a statement's first page change and the completion of its log append (CREATE TABLE: its last page change; an accepted INSERT / UPDATE / DELETE that returns without a completed log append keeps its window open until one completes); the same checker - and the race build - runs over passes with a page cache of 10-24 pages and statements that dirty hundreds of pages (the statement may be refused with 'cache is full', but must not push its own half-done pages to the data file). Distinct = (pass, statement, placement); non-trivial = the statement was actually held open (parked) across more than two timer periods."
 	c.Assume = []string{"a park of 230-400 ms spans at least two 100 ms ticks", "handlers of the race build run on the session goroutine only and share nothing with the flusher"}
 	passes := 2
 	if !core.Quick(c) {
@@ -264,10 +305,16 @@ func checkC13(c *core.Ctx) []core.Floor {
 	for p := 0; p < passes; p++ {
 		jobs = append(jobs, job{"log", p}, job{"race", p}, job{"log-slow", p}, job{"log-nosync", p})
 	}
+	// (first in the list: they take the longest)
+	jobs = append([]job{{"log", -1}, {"race", -1}}, jobs...)
 	core.ParallelFor(len(jobs), c.Workers, func(ji int) {
 		j := jobs[ji]
 		r := core.NewRand(core.SubSeed(c.Seed, "C13", j.pass))
 		pass := c13Pass(r, j.pass > 0)
+		if j.pass < 0 {
+			pass = c13LongPass(r)
+			c.Count("passes_with_one_store_open_for_more_than_30_seconds", 1)
+		}
 		dir := c.CaseDir("c13")
 		defer removeAll(dir)
 		sc := c13Script(j.mode, pass)
@@ -290,7 +337,7 @@ func checkC13(c *core.Ctx) []core.Floor {
 			runC13Saturated(c, plain, i, false)
 		}
 	})
-	fl := []core.Floor{{Key: "saturated_cache_runs", Min: int64(passes)}, {Key: "saturated_cache_runs_race_build", Min: int64(passes)}, {Key: "race_build_runs", Min: int64(passes)}, {Key: "log_build_runs", Min: int64(passes)}, {Key: "foreign_flushes_observed", Min: 20}, {Key: "statement_windows_checked", Min: 20}}
+	fl := []core.Floor{{Key: "saturated_cache_runs", Min: int64(passes)}, {Key: "saturated_cache_runs_race_build", Min: int64(passes)}, {Key: "race_build_runs", Min: int64(passes)}, {Key: "log_build_runs", Min: int64(passes)}, {Key: "foreign_flushes_observed", Min: 20}, {Key: "statement_windows_checked", Min: 20}, {Key: "passes_with_one_store_open_for_more_than_30_seconds", Min: 2}}
 	for _, cell := range []string{"create_dirty2", "insert_wal", "insert_multi_dirty2", "insert_multi_wal", "update_dirty2", "update_wal", "delete_dirty2", "delete_wal", "select_miss", "join_miss"} {
 		fl = append(fl, core.Floor{Key: "parked_log_" + cell, Min: 1}, core.Floor{Key: "parked_race_" + cell, Min: 1})
 	}
